@@ -45,6 +45,16 @@ def run_proofs(report, prop, modules, timeout_ms=None):
     report.coverage["ext_valid"] = {"checks": n_ext, "failed": ext_fails}
     for f in ext_fails:
         report.failures.append(f"ext-valid: the assumed external contract '{f}' disagrees with the real library")
+    # encoder cross-check: the engine, run as a concrete interpreter on the real source, against CPython
+    from .pyvc import crosscheck
+    try:
+        n_cc, cc_bad = crosscheck.run(common.seed(), None if tier_name == "thorough" else 8)
+    except Exception as e:                          # noqa: BLE001 - a crash of the cross-check is a checker failure
+        n_cc, cc_bad = 0, [("crosscheck", "crashed", "", f"{type(e).__name__}: {e}"[:300])]
+    report.coverage["encoder_crosscheck"] = {"cases": n_cc, "disagreements": len(cc_bad)}
+    for b in cc_bad[:5]:
+        report.failures.append(f"encoder cross-check: pyvc and CPython disagree on {b[0]} for {str(b[1])[:120]!r}: "
+                               f"CPython {str(b[2])[:120]} / engine {str(b[3])[:120]}")
     all_recs = []
     tot = disch = 0
     solver_ms = {}
